@@ -1025,6 +1025,12 @@ def large_specs():
     out.append({"tasks": tasks, "links": links, "teams": [{"name": "team_fab", "targets": [ix[n_] for n_ in ("block_assembly", "cutting", "hull_welding", "pipe_fitting", "painting_prep")], "workers": fab},
                                                           {"name": "team_out", "targets": [ix[n_] for n_ in ("painting_prep", "cable_laying", "inspection", "final_check")], "workers": outf}],
                 "label": "large:yard-two-teams"})
+    # (L11) a deck with eight equal seams welded by eight welders at once (all eight finish in one step), then inspected; a hatch cover next to it
+    tasks = [{"name": "seam%d" % i, "work": 3.0} for i in range(8)] + [{"name": "inspect", "work": 2.0}, {"name": "hatch", "work": 4.0}]
+    seams = {"seam%d" % i: 1.0 for i in range(8)}
+    ws = [{"name": "welder%d" % i, "skills": {"seam%d" % i: 1.0}, "cost": 1.0} for i in range(8)] + [{"name": "surveyor", "skills": {"inspect": 1.0, "hatch": 1.0}, "cost": 2.0}]  # (one welder per seam)
+    out.append({"tasks": tasks, "links": [[i, 8, "FS"] for i in range(8)], "components": [{"name": "deck", "tasks": list(range(8))}, {"name": "cover", "tasks": [8, 9]}],
+                "teams": [{"name": "TM0", "targets": list(range(10)), "workers": ws}], "label": "large:deck-eight-seams"})
     return out
 
 
@@ -1109,3 +1115,22 @@ def tied_lines_spec():
         links.append([2 * i, 2 * i + 1, "FS"])
     ws = [{"name": "w%d" % i, "skills": {"cut": 1.0, "weld": 1.0}, "solo": True, "cost": 10.0 * (i + 1)} for i in range(2)]
     return {"tasks": tasks, "links": links, "teams": [{"name": "team", "targets": list(range(6)), "workers": ws}], "label": "tied-lines"}
+
+
+def dock_spec():
+    """a hull (with parts panel and frame) stays in one dock over weld -> grind (on the panel) -> paint, while a pump arrives at the same dock after a preparation step"""
+    hull_jobs = {"weld": 1.0, "grind": 1.0, "paint": 1.0}
+    return {"tasks": [{"name": "weld", "work": 2.0, "nf": True}, {"name": "grind", "work": 2.0, "nf": True}, {"name": "paint", "work": 2.0, "nf": True}, {"name": "prep", "work": 1.0}, {"name": "mount", "work": 12.0, "nf": True}],
+            "links": [[0, 1, "FS"], [1, 2, "FS"], [3, 4, "FS"]],
+            "components": [{"name": "hull", "tasks": [0, 2], "children": [1, 2], "space": 3.0}, {"name": "panel", "tasks": [1], "space": 1.0}, {"name": "frame", "tasks": [], "space": 1.0}, {"name": "pump", "tasks": [4], "space": 1.0}],
+            "workplaces": [{"name": "W", "cap": 20.0, "targets": [0, 1, 2, 4], "facilities": [{"name": "m_hull", "skills": dict(hull_jobs)}, {"name": "m_pump", "skills": {"mount": 1.0}}]}],
+            "teams": [{"name": "team", "targets": [0, 1, 2, 3, 4], "workers": [{"name": "w_hull", "skills": dict(hull_jobs), "fskills": {"m_hull": 1.0}}, {"name": "w_pump", "skills": {"prep": 1.0, "mount": 1.0}, "fskills": {"m_pump": 1.0}}]}],
+            "label": "dock:hull-with-part-task-and-a-pump"}
+
+
+def long_idle_spec(idle=130):
+    """two crews; the second crew is individually absent for the first `idle` steps, so the project idles for more than a hundred steps after the first crew is done"""
+    cal = list(range(idle))
+    return {"tasks": [{"name": "T0", "work": 3.0}, {"name": "T1", "work": 2.0}, {"name": "T2", "work": 3.0}], "links": [[0, 1, "FS"], [1, 2, "FS"]],
+            "teams": [{"name": "TM0", "targets": [0], "workers": [{"name": "W0", "skills": {"T0": 1.0}, "cost": 1.0}]},
+                      {"name": "TM1", "targets": [1, 2], "workers": [{"name": "W1", "skills": {"T1": 1.0, "T2": 1.0}, "cost": 2.0, "absence": cal}]}], "label": "long-idle:%d" % idle}
